@@ -2987,11 +2987,43 @@ class EvalMut(T.Evaluator):
                 self.fields.add(path[0])
         return super().ev(n, env)
 
+    def _explore(self, bodies_pats, env):
+        # undecidable alternative (symbolic scrutinee): every alternative may run - record the stores of each
+        for pat, body in bodies_pats:
+            e2 = dict(env)
+            if pat is not None:
+                for (i, nm) in H.pat_bindings(pat):
+                    e2[i] = T.sym(nm)
+            try:
+                self.ev(body, e2)
+            except Exception:
+                pass
+
+    def match(self, n, env):
+        r = super().match(n, env)
+        if r[0] == "sym" and str(r[1]).startswith("match "):
+            self._explore([(a["pat"], a["body"]) for a in n["arms"]], env)
+        return r
+
+    def if_(self, n, env):
+        r = super().if_(n, env)
+        if r[0] == "sym" and str(r[1]).startswith("if let "):
+            c = H.peel(n["cond"], refs=False)
+            self._explore([(c["pat"], n["then"])] + ([(None, n["else"])] if "else" in n else []), env)
+        return r
+
     def call(self, n, c, args, env):
         if n.get("k") == "mcall" and n["name"] in ("extend", "push", "insert_if_empty", "insert", "replace", "get_or_insert_with", "append"):
             root, path = H.place_root(n["recv"])
             if path:
                 self.fields.add(path[0])
+            else:
+                # `let list = if visible { &mut this.a } else { &mut this.b }; list.extend(..)`: the local holds a reference to the field
+                l = H.local_of(H.peel(n["recv"]))
+                v = env.get(l[0]) if l else None
+                m = re.match(r"^(\w+)\.(\w+)$", str(v[1])) if v is not None and T.is_sym(v) else None
+                if m:
+                    self.fields.add(m.group(2))
         return super().call(n, c, args, env)
 
 
